@@ -481,7 +481,9 @@ func indexCommand(cmd *Command) (uniqueLens docLens, termFreqs map[string]fieldT
 }
 
 func (db *Database) collectResults(scores map[int]float64, pq *nlp.ProcessedQuery, options SearchOptions) []SearchResult {
-	results := make([]SearchResult, 0, utils.Min(len(scores), options.Limit*3))
+	// every scored document becomes a result, so the exact capacity is known; Limit*3 could
+	// overflow to a negative capacity for huge limits and panic in make
+	results := make([]SearchResult, 0, len(scores))
 	for docID, score := range scores {
 		cmd := &db.Commands[docID]
 
